@@ -15,6 +15,7 @@ structure KeyedSrc (on : List String) (t : Table) (name : String) : Prop where
   has_name : name ∈ t.cols
   name_off : name ∉ on
   only : ∀ c ∈ t.cols, c ∈ on ∨ c = name
+  on_nodup : OnNodup on t
 
 /-- a named table input as a source, with its default (if any) -/
 def mkSrc (defaults : List (String × Cell)) (kv : String × Table) : Src :=
@@ -27,10 +28,11 @@ structure AccOK (on : List String) (acc : Table) (S : List Src) : Prop where
   names_off : ∀ s ∈ S, s.name ∉ on
   vok : VOK on acc.R S
   uniq : (∀ s ∈ S, s.t.uniq on) → acc.R.uniq on
+  on_nodup : OnNodup on acc
 
 theorem AccOK.base {on : List String} {t : Table} {name : String} (defaults : List (String × Cell))
     (h : KeyedSrc on t name) : AccOK on t [mkSrc defaults (name, t)] := by
-  refine ⟨h.wf, ?_, ?_, ?_, ?_⟩
+  refine ⟨h.wf, ?_, ?_, ?_, ?_, ?_⟩
   · intro c
     constructor
     · intro hc
@@ -46,6 +48,7 @@ theorem AccOK.base {on : List String} {t : Table} {name : String} (defaults : Li
     exact .inl ⟨p, hp, keq_refl _ _, rfl⟩
   · intro hu
     exact hu _ (List.mem_singleton.2 rfl)
+  · exact h.on_nodup
 
 theorem shares_acc {on : List String} {acc t : Table} {S : List Src} {name : String}
     (ha : AccOK on acc S) (ht : KeyedSrc on t name) (hne : ∀ s ∈ S, s.name ≠ name) :
@@ -71,9 +74,9 @@ theorem step_mul {on : List String} (hon : on ≠ []) {acc t d : Table} {S : Lis
     (hK : ∀ k, acc.R.hasK on k ↔ ∀ s ∈ S, s.t.hasK on k) (hm : acc.mul t = some (.ok d)) :
     AccOK on d (S ++ [mkSrc defaults (name, t)]) ∧
     ∀ k, d.R.hasK on k ↔ ∀ s ∈ S ++ [mkSrc defaults (name, t)], s.t.hasK on k := by
-  obtain ⟨hJ, hw, hc⟩ := mul_sem on hon acc t d (shares_acc ha ht hne) hm
+  obtain ⟨hJ, hw, hc, hond⟩ := mul_sem on hon acc t d (shares_acc ha ht hne) ha.on_nodup hm
   have hb := AccOK.base defaults ht
-  refine ⟨⟨hw, ?_, ?_, ?_, ?_⟩, ?_⟩
+  refine ⟨⟨hw, ?_, ?_, ?_, ?_, hond⟩, ?_⟩
   · intro c
     rw [hc c, ha.cols c, hb.cols c]
     simp only [List.mem_append, List.mem_singleton]
@@ -240,8 +243,8 @@ theorem step_def {on : List String} (hon : on ≠ []) {acc t : Table} {S : List 
     intro kv hkv; simpa using (List.mem_filter.1 hkv).2
   have hdb_cols : ∀ kv ∈ defaults.filter (fun kv => kv.1 == name), kv.1 ∈ t.cols := by
     intro kv hkv; rw [hdb_name kv hkv]; exact ht.has_name
-  obtain ⟨d, hx, hJ, hw, hc⟩ := joinDef_sem on hon acc t da _ x ha.wf ht.wf
-    (shares_acc ha ht hne) hda_cols hdb_cols hj
+  obtain ⟨d, hx, hJ, hw, hc, hond⟩ := joinDef_sem on hon acc t da _ x ha.wf ht.wf
+    (shares_acc ha ht hne) hda_cols hdb_cols ha.on_nodup hj
   have hKd : ∀ k, d.R.hasK on k ↔ ∃ s ∈ S ++ [mkSrc defaults (name, t)], s.t.hasK on k := by
     intro k
     rw [hJ.hasK_iff hd.off hdb.off k, hd.hK k]
@@ -260,7 +263,7 @@ theorem step_def {on : List String} (hon : on ≠ []) {acc t : Table} {S : List 
         by_cases h2 : ∃ s ∈ S, s.t.hasK on k
         · exact .inl ⟨h2, h1⟩
         · exact .inr (.inl ⟨hd.ne, h1, h2⟩)
-  refine ⟨d, hx, ⟨hw, ?_, ?_, ?_, ?_⟩, ⟨?_, ?_, ?_, ?_, hKd⟩⟩
+  refine ⟨d, hx, ⟨hw, ?_, ?_, ?_, ?_, hond⟩, ⟨?_, ?_, ?_, ?_, hKd⟩⟩
   · intro c
     rw [hc c, ha.cols c, hb.cols c]
     simp only [List.mem_append, List.mem_singleton]
